@@ -11,7 +11,7 @@ from ..seams import CLOCK, F, T, AMHLmod, reset_world
 from ..seams import LIB_ERRORS
 from ..core import real
 from ..oracle import (L, ed_verify, sig_message, base_mult, point_add, pubkey_of_seed,
-                      scalar_to_int, int_to_scalar)
+                      scalar_to_int, int_to_scalar, as_key_arg)
 
 AMHL = AMHLmod.AMHL
 PID = 'C18'
@@ -61,6 +61,7 @@ def gen_plan(run_seed, idx, tier):
                        'n': n if c == 0 else rng.rng(2, 4),
                        'flags': rng.choice(['00', '00', '01', '03', '80', '81', 'a5', '40', 'ff']),
                        'refund': refund and c == 0,
+                       'keys': rng.choice(['bytes', 'bytes', 'bytes', 'object']),
                        'refund_hops': None if rng.chance(1, 2) else
                        sorted(rng.sample(range(8), rng.rng(1, 4))),
                        'timeout': rng.choice([30, 60, 3600]),
@@ -180,7 +181,11 @@ class Chain:
         self.refunds_arg = refunds
         CLOCK.begin_call('P0')
         try:
-            self.res = real('setup_amhl', T.setup_amhl, seed, self.pks[:self.n], self.flags,
+            how = spec.get('keys', 'bytes')
+            pk_arg = [as_key_arg('pub', x, how) for x in self.pks[:self.n]]
+            if how == 'object':
+                pk_arg = tuple(pk_arg)
+            self.res = real('setup_amhl', T.setup_amhl, seed, pk_arg, self.flags,
                             refunds, spec['timeout'])
         finally:
             reads = CLOCK.end_call()
